@@ -330,6 +330,18 @@ pub fn run(run: &mut Run) {
     });
     let n = run.budget(20_000, 1_000_000);
     run.prop(&Writes, strat, n);
+    // long write sessions on one connection: thousands of packets, hundreds of KB (a counter, a high-water mark, a capacity
+    // threshold on the write side)
+    let long = (any::<bool>(), proptest::collection::vec(frame_strategy(1, 1), 8..40), 1500usize..6000, proptest::collection::vec(prop_oneof![2 => (1usize..5).prop_map(WriteStep::Accept), 1 => Just(WriteStep::Pending), 3 => (100usize..2000).prop_map(WriteStep::Accept)], 0..40)).prop_map(|(compressed, frames, n, policy)| {
+        let mode = if compressed { Mode::Compressed } else { Mode::Uncompressed };
+        let base: Vec<Vec<u8>> = frames.iter().map(|f| frame_bytes(f, &mode)).collect();
+        let fr: Vec<Vec<u8>> = (0..n).map(|i| base[(i * 7 + i / 13) % base.len()].clone()).collect();
+        WriteCase { compressed, frames: fr, policy }
+    });
+    let n = run.budget(60, 3_000);
+    run.max_shrink_iters = 30;
+    run.prop(&Writes, long, n);
+    run.max_shrink_iters = 4096;
     // writes between reads (the connection writes keep-alive replies of its own during reads)
     let strat = (session_strategy(8, 4, 1, false, Some(false)), proptest::collection::vec((0usize..8, frame_strategy(5, 1)), 0..5)).prop_map(|(session, w)| {
         let mode = session.mode();
